@@ -16,12 +16,19 @@ type pair[K, V any] struct {
 	Val V
 }
 
-func NewIntegerIter(n int) Iterator[pair[int, any]] {
-	return &integerIter{n: n, i: -1}
+type integer interface {
+	~int | ~int8 | ~int16 | ~int32 | ~int64 |
+		~uint | ~uint8 | ~uint16 | ~uint32 | ~uint64 | ~uintptr
 }
 
-func NewStringIter(str string) Iterator[pair[int, rune]] {
-	return &stringIter{str: str}
+// the operand may be of any integer type, the iteration values have the same type
+func NewIntegerIter[T integer](n T) Iterator[pair[T, any]] {
+	return &integerIter[T]{n: n}
+}
+
+// the operand may be of named string type
+func NewStringIter[S ~string](str S) Iterator[pair[int, rune]] {
+	return &stringIter{str: string(str)}
 }
 
 func NewSliceIter[V any](slice []V) Iterator[pair[int, V]] {
@@ -38,18 +45,23 @@ func NewChanIter[V any](ch <-chan V) Iterator[pair[V, any]] {
 	return &chanIter[V]{ch: ch}
 }
 
-type integerIter struct {
-	n int
-	i int
+type integerIter[T integer] struct {
+	n       T
+	i       T
+	started bool
 }
 
-func (i *integerIter) MoveNext() bool {
-	i.i++
+func (i *integerIter[T]) MoveNext() bool {
+	if !i.started {
+		i.started = true // unsigned types have no -1 to start from
+	} else if i.i < i.n {
+		i.i++
+	}
 	return i.i < i.n
 }
 
-func (i *integerIter) Current() pair[int, any] {
-	return pair[int, any]{Key: i.i}
+func (i *integerIter[T]) Current() pair[T, any] {
+	return pair[T, any]{Key: i.i}
 }
 
 type stringIter struct {
